@@ -183,6 +183,50 @@ func UniverseKVDelDel() *Universe {
 	return b.Done()
 }
 
+// UniverseKVPool: pool transactions that depend on each other through key
+// versions only, and a peer block that conflicts with the writer.
+//
+//	g - q1 - q2      q1: kvA (A: put k1 x)    q2: tQ (B spends the output pP spends)
+//
+// Pool candidates at q1: pP (B: put k2 p), and readers pre-executed while pP is
+// pending, paid by other accounts (no token link to pP): rC (C: get k1;get k2 -
+// a version from a confirmed writer BEFORE the version from pP), rD (D: get k2),
+// wD (D: get k0;put k3 w;get k2 - a never-written key first).
+func UniverseKVPool() *Universe {
+	cfg := DefaultConfig()
+	cfg.Quotas = map[string]string{"A": "1000", "B": "1000", "C": "1000", "D": "1000"}
+	b := NewUniverse("U-kv-pool", cfg, RegisterVKV)
+	root := b.Root()
+	b.At("g")
+	b.KV("kvA", "A", "put k1 x", []In{{Tx: root, Offset: 0}})
+	b.Block("q1", "M")
+	b.Transfer("tQ", "B", []In{{Tx: root, Offset: 1}}, []Out{{To: "A", Amount: "1000"}})
+	b.Block("q2", "P")
+	b.At("q1")
+	mk := func(name, who, prog string, in In) *pb.Transaction {
+		tx, _, err := b.W.BuildKVTx(who, prog, []In{in}, name)
+		if err != nil {
+			panic(err)
+		}
+		return b.Raw(name, tx, false)
+	}
+	pP := mk("pP", "B", "put k2 p", In{Tx: root, Offset: 1})
+	if err := b.W.SubmitStrict(CloneTx(pP)); err != nil {
+		panic(err)
+	}
+	mk("rC", "C", "get k1;get k2", In{Tx: root, Offset: 2})
+	mk("rD", "D", "get k2", In{Tx: root, Offset: 3})
+	mk("wD", "D", "get k0;put k3 w;get k2", In{Tx: root, Offset: 3})
+	if err := b.W.State.Walk(b.U.ID("g"), false); err != nil {
+		panic(err)
+	}
+	if err := b.W.State.Walk(b.U.ID("q1"), false); err != nil {
+		panic(err)
+	}
+	vhook.Discard()
+	return b.Done()
+}
+
 // UniverseAmt: zero-value output, frozen outputs (future height and -1),
 // amounts beyond 64 bit, leading-zero amount bytes in an output, multi-input
 // multi-output, fee outputs.
